@@ -91,3 +91,113 @@ Fixpoint run_sim_atomic (s : sim_astate) (sc : list tick_script) : res (list sim
       bind (sim_astep s t) (fun '(o, s') =>
         bind (run_sim_atomic s' r) (fun os => Ok (o :: os)))
   end.
+
+(* ---------------------------------------------------------------- correspondence with the real
+   hooks (harness/h_sim, engine Sim's harness: real StreamHook / KeyedStreamHook / SingletonHook
+   objects under the real run_hooks with a scripted bolero driver).  Per round the model hooks are
+   rebuilt from the queues the implementation reports before the round (keyed maps in the
+   implementation's iteration order = the order oracle), `last` is tracked by tools/hydrob.py. *)
+Definition queues_of (h : hook) : list (N * list N) :=
+  match h with
+  | HStreamT q _ | HStreamN q _ | HSingle q _ _ | HPass q _ => [(0, q)]
+  | HKeyedT m _ | HKeyedN m _ | HKSingle m _ _ => m
+  end.
+
+Fixpoint lN_eqb (a b : list N) : bool :=
+  match a, b with
+  | [], [] => true
+  | x :: a', y :: b' => N.eqb x y && lN_eqb a' b'
+  | _, _ => false
+  end.
+Fixpoint lNN_eqb (a b : list (N * N)) : bool :=
+  match a, b with
+  | [], [] => true
+  | (x1, x2) :: a', (y1, y2) :: b' => N.eqb x1 y1 && N.eqb x2 y2 && lNN_eqb a' b'
+  | _, _ => false
+  end.
+Fixpoint queues_eqb (a b : list (N * list N)) : bool :=
+  match a, b with
+  | [], [] => true
+  | (k1, q1) :: a', (k2, q2) :: b' => N.eqb k1 k2 && lN_eqb q1 q2 && queues_eqb a' b'
+  | _, _ => false
+  end.
+Fixpoint all2 {X Y} (f : X -> Y -> bool) (a : list X) (b : list Y) : bool :=
+  match a, b with
+  | [], [] => true
+  | x :: a', y :: b' => f x y && all2 f a' b'
+  | _, _ => false
+  end.
+
+(* one round: hooks before, decisions used, implementation's emitted items and queues after *)
+Record sround := mkRound {
+  sr_hooks : list hook; sr_ds : script;
+  sr_emitted : list (list (N * N)); sr_after : list (list (N * list N))
+}.
+
+Definition round_agrees (r : sround) : bool :=
+  match run_hooks (sr_hooks r) (sr_ds r) with
+  | Ok (hs', outs, rest) =>
+      all2 lNN_eqb (map fst outs) (sr_emitted r)
+      && all2 queues_eqb (map queues_of hs') (sr_after r)
+      && is_nil rest
+  | _ => false
+  end.
+
+(* multiset equality on (key, value) pairs *)
+Fixpoint rem1 (x : N * N) (l : list (N * N)) : option (list (N * N)) :=
+  match l with
+  | [] => None
+  | y :: r => if N.eqb (fst x) (fst y) && N.eqb (snd x) (snd y) then Some r
+              else match rem1 x r with Some r' => Some (y :: r') | None => None end
+  end.
+Fixpoint ms_eqb (a b : list (N * N)) : bool :=
+  match a with
+  | [] => is_nil b
+  | x :: r => match rem1 x b with Some b' => ms_eqb r b' | None => false end
+  end.
+Fixpoint sortedNle (l : list N) : bool :=
+  match l with
+  | [] => true
+  | x :: r => match r with [] => true | y :: _ => (x <=? y) && sortedNle r end
+  end.
+
+(* executable C31 clauses on one hook's observed column: kind code 0 = TotalOrder batch,
+   1 = NoOrder / keyed batch, 2 = snapshot; pushed = everything pushed to the hook in order,
+   emitted = per round, final = pairs still queued at the end *)
+Definition hook_clause_b (kind : N) (pushed : list (N * N)) (emitted : list (list (N * N)))
+           (final : list (N * N)) : bool :=
+  match kind with
+  | 0 => lNN_eqb (concat emitted ++ final) pushed
+  | 1 => ms_eqb (concat emitted ++ final) pushed
+  | _ => sortedNle (map snd (concat emitted))
+         && forallb (fun e => Nat.eqb (length e) 1) emitted
+  end.
+
+Definition c31_sim_verdict (rounds : list sround) (continuity : bool)
+           (cols : list (N * list (N * N) * list (list (N * N)) * list (N * N))) : N :=
+  (if forallb round_agrees rounds && continuity then 0 else 1)
+  + (if forallb (fun c => hook_clause_b (fst (fst (fst c))) (snd (fst (fst c))) (snd (fst c)) (snd c)) cols
+     then 0 else 2).
+
+(* C34: hooks [writes; reads]; responses are computed from the implementation's releases as the
+   atomic snapshot does (state after this tick's writes); the predicate is read-after-write *)
+Fixpoint raw_sim_b (applied : list (N * N)) (rounds : list sround) : bool :=
+  match rounds with
+  | [] => true
+  | r :: rest =>
+      match sr_emitted r with
+      | [wout; rout] =>
+          let applied' := applied ++ wout in
+          (* every acknowledged write so far is in the snapshot the reads of this tick get *)
+          forallb (fun w => existsb (fun a => N.eqb (fst a) (fst w) && N.eqb (snd a) (snd w)) applied') applied'
+          && raw_sim_b applied' rest
+      | _ => false
+      end
+  end.
+
+(* wkind: 0 = unkeyed TotalOrder write hook (acks in arrival order), 1 = keyed write hook (a hash
+   map: no order between keys, multiset form) *)
+Definition c34_sim_verdict (rounds : list sround) (continuity : bool) (wkind : N)
+           (wcol : list (N * N) * list (list (N * N)) * list (N * N)) : N :=
+  (if forallb round_agrees rounds && continuity then 0 else 1)
+  + (if hook_clause_b wkind (fst (fst wcol)) (snd (fst wcol)) (snd wcol) && raw_sim_b [] rounds then 0 else 2).
